@@ -146,3 +146,77 @@ def C17_binding_sym(idS, m1, m2, K, pw, idS2, n1, n2, K2, pw2, w):
 ''')
 c.params(**{n: "bytes" for n in "idS m1 m2 K pw idS2 n1 n2 K2 pw2".split()}, w="int").returns("none")
 c.lemma_tags = {"C17", "C02"}
+
+# ---------------------------------------------------------------------------------------------------------------
+# C02  tampering / mismatch: two ends that obtain equal keys had identical views of the password, the identities
+# and both messages exactly as sent (modulo M-sha).  a and b are ANY two started sessions over the same parameter
+# object (possibly different passwords and identities); m, m2 are ARBITRARY delivered byte strings.
+# ---------------------------------------------------------------------------------------------------------------
+c = REG.ghost_function("lemma.C02_tamper_AB", "spake2", '''
+def C02_tamper_AB(pwa, idAa, idBa, pwb, idAb, idBb, params, ea, eb, m, m2):
+    a = SPAKE2_A(pwa, idAa, idBa, params, ea)
+    b = SPAKE2_B(pwb, idAb, idBb, params, eb)
+    ma = a.start()
+    mb = b.start()
+    ka = a.finish(m)           # A receives m   (whatever the network delivered)
+    kb = b.finish(m2)          # B receives m2
+    assume(ka == kb)
+    sha_injective()
+    assert pwa == pwb, "same-password"
+    assert idAa == idAb and idBa == idBb, "same-identities"
+    assert m == mb, "A-received-exactly-what-B-sent"
+    assert m2 == ma, "B-received-exactly-what-A-sent"
+    return None
+''')
+c.params(pwa="bytes", idAa="bytes", idBa="bytes", pwb="bytes", idAb="bytes", idBb="bytes", params="obj:params._Params",
+         ea="entropy", eb="entropy", m="bytes", m2="bytes").returns("none")
+c.may_raise("Exception")
+c.lemma_tags = {"C02"}
+
+c = REG.ghost_function("lemma.C02_tamper_sym", "spake2", '''
+def C02_tamper_sym(pwa, ida, pwb, idb, params, ea, eb, m, m2):
+    a = SPAKE2_Symmetric(pwa, ida, params, ea)
+    b = SPAKE2_Symmetric(pwb, idb, params, eb)
+    ma = a.start()
+    mb = b.start()
+    ka = a.finish(m)
+    kb = b.finish(m2)
+    assume(ka == kb)
+    # non-degenerate: the two ends did not send the same blinded element (that coincidence is known finding K3)
+    assume(a.outbound_message != b.outbound_message)
+    sha_injective()
+    assert pwa == pwb, "same-password"
+    assert ida == idb, "same-identity"
+    assert m == mb and m2 == ma, "both-received-exactly-what-was-sent"
+    return None
+''')
+c.params(pwa="bytes", ida="bytes", pwb="bytes", idb="bytes", params="obj:params._Params", ea="entropy", eb="entropy", m="bytes", m2="bytes").returns("none")
+c.may_raise("Exception")
+c.lemma_tags = {"C02"}
+
+# ---------------------------------------------------------------------------------------------------------------
+# C09  the fingerprint pins every blinding element the role uses (same group object): equal fingerprints imply equal
+# M and N (asymmetric) / S (symmetric), hence the same outbound message and keys (modulo M-sha)
+# ---------------------------------------------------------------------------------------------------------------
+c = REG.ghost_function("lemma.C09_fingerprint_binds", "spake2", '''
+def C09_fingerprint_binds(p1, p2, s1, s2):
+    g = p1.group
+    assume(spec.fingerprint(SPAKE2_A, p1) == spec.fingerprint(SPAKE2_A, p2))
+    sha_injective()
+    assert spec.view(p1.M) == spec.view(p2.M), "M-pinned"
+    assert spec.view(p1.N) == spec.view(p2.N), "N-pinned"
+    return None
+''')
+c.params(p1="obj:params._Params", p2="obj:params._Params;group=$p1.group", s1="none", s2="none").returns("none")
+c.lemma_tags = {"C09"}
+
+c = REG.ghost_function("lemma.C09_fingerprint_binds_sym", "spake2", '''
+def C09_fingerprint_binds_sym(p1, p2):
+    g = p1.group
+    assume(spec.fingerprint(SPAKE2_Symmetric, p1) == spec.fingerprint(SPAKE2_Symmetric, p2))
+    sha_injective()
+    assert spec.view(p1.S) == spec.view(p2.S), "S-pinned"
+    return None
+''')
+c.params(p1="obj:params._Params", p2="obj:params._Params;group=$p1.group").returns("none")
+c.lemma_tags = {"C09"}
